@@ -46,6 +46,37 @@ class Holder:
         return self.K + self.v
 
 
+def _lazy(name, start):
+    slot = '_' + name
+
+    def getter(self):
+        if getattr(self, slot) is None:
+            setattr(self, slot, start)
+        return getattr(self, slot)
+
+    def setter(self, value):
+        setattr(self, slot, value * 2)
+    return property(getter, setter)
+
+
+class Lazy:
+    p = _lazy('p', 7)
+    q = _lazy('q', 1)
+
+    def __init__(self):
+        self._p = None
+        self._q = None
+
+
+def t_property_objects():
+    z = Lazy()
+    a = z.p
+    z.q = 5
+    for nm in ['p', 'q']:
+        setattr(z, nm, getattr(z, nm) + 1)
+    return a + z.p + z.q + z._q             # 7 + 16 + 22 + 22 = 67
+
+
 def gen(n):
     a, b = 0, 1
     for _ in range(n):
@@ -127,7 +158,7 @@ def t_getters():
     return first((8, 9)) + wid(Box(1, 4))              # 8 + 3 = 11
 '''
 
-EXPECT = {'t_namedtuple': 27, 't_subclass': 34, 't_partial': 42, 't_reduce': 63, 't_generators': 44, 't_sets_dicts': 74, 't_classes': 34, 't_getters': 11}
+EXPECT = {'t_namedtuple': 27, 't_subclass': 34, 't_partial': 42, 't_reduce': 63, 't_generators': 44, 't_sets_dicts': 74, 't_classes': 34, 't_getters': 11, 't_property_objects': 67}
 
 
 def main(db):
